@@ -22,6 +22,14 @@ assumption("A-STRNUM: str(int)/int(str) are exact on decimal digit strings (SMT 
            "finite double contains '.' or 'e' and starts with '-' exactly for negative-signed values, repr(inf/nan) = 'inf'/"
            "'nan'; repr(str) is a string-literal token evaluating to the string")
 
+# libcst validates tokens in the node constructors (CSTValidationError otherwise): these are *obligations* at every
+# constructor call in the code under contract ("rendering never fails")
+predicate("float_tok(s)", "validf(s) and not s.startswith('-') and ('.' in s or 'e' in s)")
+for _cls, _pre in (("Integer", "isdigits(value)"), ("Float", "float_tok(value)"), ("SimpleString", "isquoted(value)"),
+                   ("Name", "isident(value)")):
+    contract(f"libcst:{_cls}.__init__", mode="assume", sig={"self": _cls, "value": "str"}, requires=[_pre],
+             modifies=["self.ALL"], ensures=["self.value == value"])
+
 NEG = "isinstance({n}, UnaryOperation) and isinstance(cast({n}, UnaryOperation).operator, Minus)"
 INNER = "cast({n}, UnaryOperation).expression"
 # ---- ints -------------------------------------------------------------------------------------------------------------
@@ -139,7 +147,7 @@ def _native_names():
     return {
         "cast": lambda x, c: x, "isdigits": lambda s: isinstance(s, str) and s.isascii() and s.isdigit(),
         "isneg": lambda x: _math.copysign(1.0, x) < 0, "samefp": samefp, "validf": validf, "unq": unq,
-        "isquoted": lambda s: isinstance(unq(s), (str, bytes)),
+        "isquoted": lambda s: isinstance(unq(s), (str, bytes)), "isident": lambda s: isinstance(s, str) and s.isidentifier(),
         **{n: getattr(cst, n) for n in ("BaseExpression", "BaseUnaryOp", "Minus", "Integer", "Float", "Name", "SimpleString",
                                         "UnaryOperation", "Arg", "Call", "List", "Tuple", "Set", "Dict")},
     }
